@@ -12,7 +12,7 @@ SYMS = ['BTC-USDT', 'ETH-USDT']
 def session(draw, minutes=(60, 200), kinds=('futures', 'spot'), tfs=('1m', '3m', '5m', '15m'), data_tfs=('3m', '5m', '15m', '30m', '1h'),
             max_symbols=2, max_data=2, warmup=(False, True), fast=(False, True), modes=('cross',), leverages=(1, 2, 5, 10, 25),
             fees=(0.0, 0.0004, 0.001, 0.0075), structural=True, program=None, same_tf=False, align_len=False, min_steps=8, min_symbols=1,
-            data_only_symbol=False, candle_opts=None, logs=(False,)):
+            data_only_symbol=False, candle_opts=None, logs=(False,), unaligned_warmup=False):
     kind = draw(st.sampled_from(kinds))
     futures = kind == 'futures'
     nsym = draw(st.integers(min_symbols, max_symbols))
@@ -67,6 +67,9 @@ def session(draw, minutes=(60, 200), kinds=('futures', 'spot'), tfs=('1m', '3m',
         for t in all_tf:
             l = l * TF_MIN[t] // math.gcd(l, TF_MIN[t])
         wn = l * k
+        if unaligned_warmup and l > 1 and draw(st.sampled_from([False, False, True])):
+            # a caller of research.backtest may pass a warm-up of any length (jesse's own loader passes whole windows)
+            wn += draw(st.integers(1, l - 1))
         if wn <= 720:
             cfg['warm_up'] = wn
             warm = {}
